@@ -770,6 +770,86 @@ theorem builder_complete_nested (v : Variant) (env : Env) (a : Kvs) (r : Cfg) :
     obtain ⟨dk, tk, e1, e2, e3⟩ := mk_keys hpre
     exact ⟨pre, dk, tk, mk_get hr hnd (v := pre) (by simp), e1, e2, e3⟩
 
+/-! ## attribute assignment on an existing object -/
+
+theorem ruleOf_mem {cls f : String} {r : Rule} (h : ruleOf cls f = some r) : (f, r) ∈ fieldRules cls := by
+  unfold ruleOf at h
+  split at h
+  · rename_i fr rest hf
+    simp only [Option.some.injEq] at h
+    have hm : fr ∈ (fieldRules cls).filter (fun fr => fr.1 == f) := by rw [hf]; exact List.mem_cons_self
+    rw [List.mem_filter] at hm
+    obtain ⟨hm1, hm2⟩ := hm
+    have : fr.1 = f := by simpa using hm2
+    rw [← this, ← h]; exact hm1
+  · cases h
+
+/-- **the verdict of an assignment is the constructor's verdict for that field**: with a validator that
+looks at the value being assigned (`checksOld = false`), `obj.f = v` is decided by exactly the rule
+`Rule.check` the constructor applies to field `f` (`validators_reject`), on the NEW value; it raises
+the same exception class; when it raises the object is unchanged (no new state is returned), when it
+succeeds the field holds `v` and nothing else changed.  (`ModelConfig.pre_trained_weights` is decided
+by the cross-field validator `preTrainedOk` on the updated object, again as in the constructor.) -/
+theorem assign_verdict_eq_construct (cls f : String) (kvs : Kvs) (old v : Cfg) (hl : lookup f kvs = some old)
+    (hm : (cls == "ModelConfig" && f == "pre_trained_weights") = false) :
+    assignField false cls kvs f v =
+      (match ruleOf cls f with
+       | none => .ok (setKey f v kvs)
+       | some r => match r.check v with
+         | .ok () => .ok (setKey f v kvs)
+         | .error e => .error e) := by
+  unfold assignField assignVerdict
+  rw [hl]
+  simp only [hm]
+  cases ruleOf cls f with
+  | none => rfl
+  | some r =>
+    simp only [Bool.false_eq_true, if_false]
+    cases r.check v with
+    | ok u => cases u; rfl
+    | error e => rfl
+
+/-- hence an accepted assignment satisfies the field's validator and stores exactly `v` … -/
+theorem assign_accepts_only_valid {cls f : String} {kvs kvs' : Kvs} {old v : Cfg} {r : Rule}
+    (hl : lookup f kvs = some old) (hr : ruleOf cls f = some r)
+    (hm : (cls == "ModelConfig" && f == "pre_trained_weights") = false)
+    (h : assignField false cls kvs f v = .ok kvs') :
+    r.check v = .ok () ∧ lookup f kvs' = some v ∧ (f, r) ∈ fieldRules cls := by
+  rw [assign_verdict_eq_construct cls f kvs old v hl hm, hr] at h
+  simp only at h
+  cases hc : r.check v with
+  | error e => rw [hc] at h; cases h
+  | ok u =>
+    rw [hc] at h
+    cases u
+    simp only [Except.ok.injEq] at h
+    subst h
+    exact ⟨rfl, lookup_setKey_self (hasKey_of_lookup hl), ruleOf_mem hr⟩
+
+/-- … and NaN can be assigned to no validated field -/
+theorem assign_rejects_nan {cls f : String} {kvs : Kvs} {old : Cfg} {r : Rule}
+    (hl : lookup f kvs = some old) (hr : ruleOf cls f = some r)
+    (hm : (cls == "ModelConfig" && f == "pre_trained_weights") = false) :
+    ∀ kvs', assignField false cls kvs f (.leaf .nan) ≠ .ok kvs' := by
+  intro kvs' h
+  exact nan_rejected r (assign_accepts_only_valid hl hr hm h).1
+
+/-- F-C20h: that is **false** of `PreprocessingConfig.scale` and `ReduceLROnPlateauConfig.min_lr` as they
+are in /repo: their validators ignore the `value` argument and read `self.<field>`, i.e. the OLD value —
+NaN (any invalid value) is accepted over a valid one, and a valid value is refused over an invalid one -/
+theorem assign_checks_old_counterexample :
+    assignChecksOld "PreprocessingConfig" "scale" = true ∧
+    assignChecksOld "ReduceLROnPlateauConfig" "min_lr" = true ∧
+    (assignField true "PreprocessingConfig" [("scale", fl 1)] "scale" (.leaf .nan)).toBool = true ∧
+    (assignField true "PreprocessingConfig" [("scale", .leaf .nan)] "scale" (fl 1)).toBool = false ∧
+    (assignField false "PreprocessingConfig" [("scale", fl 1)] "scale" (.leaf .nan)).toBool = false := by
+  decide
+
+/-- … and true of every other validated field: the table of old-value validators is exactly those two -/
+theorem assign_checks_old_only (cls f : String) (h : assignChecksOld cls f = true) :
+    (cls = "PreprocessingConfig" ∧ f = "scale") ∨ (cls = "ReduceLROnPlateauConfig" ∧ f = "min_lr") := by
+  simpa [assignChecksOld] using h
+
 /-! ## `train()` -/
 
 /-- **the configuration `train()` hands to `run_training` is the composition of the three builders
